@@ -92,6 +92,7 @@ def run(ctx):
             ctx.ob("E4.loop", fkc + "/every-entry", e["every"], "every list entry yields its own (hash_to_point(msg,dst), pk) pairing input or an error (%s)" % e["mode"], where=where(e["fn"], e["bb"]))
         if not ents:
             ctx.ob("E4.loop", fkc + "/every-entry", False, "no per-entry construction of pairing inputs found", where=where(c))
+        F.check_entry_pair_form(ctx, "E5.equation", P, fkc, ents)
         F.check_no_dropping_adapters(ctx, "E7.adapters", P, [fkc])
         ev = evaluate(c)
         srcs = [e["source"] for e in ents if e["source"] is not None]
@@ -184,7 +185,7 @@ def check_basic_uniqueness(ctx, P):
     elif _scan_uniqueness(ctx, P, f, ev, fk, errs, scan_allow):
         pass
     else:
-        ctx.ob("E4.unique.anchor", fk, False, "no message-uniqueness mechanism (set/map insert, or sort+dedup) found in the Basic aggregate_verify (missing anchor)", where=where(f))
+        ctx.ob("E4.unique.anchor", fk, False, "no message-uniqueness mechanism (set/map insert, sort+dedup, or an equality scan over the accepted entries) found in the Basic aggregate_verify (missing anchor)", where=where(f))
     F.check_no_dropping_adapters(ctx, "E7.adapters", P, [fk], allow=scan_allow)
 
 
